@@ -27,6 +27,22 @@ BUILT = {
    tech="exhaustive bounded-depth enumeration with modify(price in {-,each grid price}, volume in {-,1..4}) on every id in every status; reference engine + drain probe after every step",
    text="Every modify request shape on every order in every status at every point of every history to the stated depth; the drain probe exposes the queue seat right after the modify.",
    note="Trusted: reference engine encodes 'only a pure reduction keeps the seat'."),
+ "C08": dict(cat="model_checking", engine="envx", ref="§3 C08",
+   tech="exhaustive enumeration of environment scenarios (submissions x toggles x steps) with every shuffle outcome forced through a scripted RngCore (all n! index scripts); candidate-schedule oracle: some permutation replayed on plain OrderBooks + reference engine at times start+i must reproduce the step",
+   text="Every scenario within the bounds (total submissions, steps, toggles; Env<3>, Env<10>, MarketEnv<2,3>; step size equal to the batch size and large; from empty and pre-populated books) is run on a fresh real environment under every one of the n! index scripts of the shuffle. After each step the set of permutations whose replay on stand-alone books reproduces exactly the observed orders, trades, views and time must be non-empty; clock, per-step traded volume and queue emptiness (an extra empty step) are checked directly.",
+   note="Trusted: the stand-alone OrderBook (checked by C01-C06) and the harness reference engine as replay targets; rand's mapping from generator words to indices is not trusted (the oracle is independent of it)."),
+ "C10": dict(cat="model_checking", engine="envx", ref="§3 C10",
+   tech="same exhaustive scenario enumeration as C08 (all schedules via scripted RngCore), observing the full environment between every two actions",
+   text="Before and after every submission the complete observable state (live book, recorded histories, level-2 snapshot, env getters) is compared: only an appended New order may differ; the level-2 snapshot handed to agents must equal the live book's level-2 data after construction, every submission, toggle and step.",
+   note="Trusted: nothing beyond the public getters."),
+ "C11": dict(cat="model_checking", engine="envx", ref="§3 C11",
+   tech="same exhaustive scenario enumeration (all schedules), the harness reads the live book after every step and compares every recorded series entry by entry; LEVELS 1..24 sweep",
+   text="After step j the harness reads the live book; after k steps every series (touch prices, side volumes, 4 x LEVELS per-level series, touch getters, per-step traded volume) must have exactly k entries and entry j must equal the value read at step j, bid against bid; traded volume j must equal the log's volume stamped within step j.",
+   note="Trusted: live getters of the book (C02)."),
+ "C14": dict(cat="model_checking", engine="marketx+envx", ref="§3 C14",
+   tech="exhaustive bounded-depth enumeration of interleaved per-asset operations on Market<1..4> against lock-step stand-alone OrderBooks; MarketEnv scenarios under all n! schedules with the per-asset candidate-schedule oracle",
+   text="Market<A> (A=1..4, distinct ticks): every interleaving of per-asset operations to the stated depth; each asset must equal a stand-alone real OrderBook fed only its own operations at the same times, every all-asset query must be the array of the stand-alone values, other assets must be untouched. MarketEnv<1..4>: C08's oracle per asset with instructions spread over assets and every order of the shared queue.",
+   note="Trusted: the single-asset OrderBook (C01-C06)."),
  "C12": dict(cat="model_checking", engine="seqx+envx", ref="§3 C12",
    tech="exhaustive bounded-depth enumeration with on- and off-grid prices offered to create, create_and_place and modify at every point of every history; grid monitor",
    text="Ticks 2,3,5,10 with off-grid neighbours of grid prices offered to every creating and modifying entry point at every point of every history to the stated depth; rejected creations must leave the snapshot untouched; every resting price on the grid; published levels account for all resting volume in range.",
